@@ -41,19 +41,26 @@ type Case struct {
 	Sizes     string `json:"sizes"`     // small | mixed | large
 	SlowSub   bool   `json:"slowsub"`   // subscribers read in small sips with pauses (their socket writes block)
 	QoS       int    `json:"qos"`
+	ReadRate  int    `json:"readrate"` // broker-side per-connection read rate limit (0 = default 100000/s): publishers get throttled
 }
 
 var shared *vkit.Broker
+var sharedRate int
 var key string
 var srv *httptest.Server
 
-func broker() *vkit.Broker {
+func broker(readRate int) *vkit.Broker {
+	if shared != nil && sharedRate != readRate {
+		srv.Close()
+		shared.Close()
+		shared = nil
+	}
 	if shared == nil {
-		b, err := vkit.NewBroker(vkit.BrokerOpts{})
+		b, err := vkit.NewBroker(vkit.BrokerOpts{ReadRate: readRate})
 		if err != nil {
 			panic(err)
 		}
-		shared = b
+		shared, sharedRate = b, readRate
 		key = b.Key("#/", security.AllowReadWrite)
 		srv = httptest.NewServer(b.S.VerifHTTPHandler())
 	}
@@ -193,7 +200,7 @@ func payloadSize(c Case, rng *rand.Rand) int {
 }
 
 func runCase(c Case) string {
-	b := broker()
+	b := broker(c.ReadRate)
 	ch := fmt.Sprintf("c%d/", c.Seed&0xffff)
 	total := c.Pubs * c.PerPub
 	type subState struct {
@@ -416,6 +423,10 @@ func TestConcurrentDelivery(t *testing.T) {
 		if c.Sizes == "large" {
 			c.PerPub = 100 + rng.Intn(200)
 		}
+		if r%6 == 5 { // one round in six with the broker's read-rate limiter engaged
+			c.ReadRate = 400
+			c.PerPub = 150 + rng.Intn(150)
+		}
 		if msg := runCase(c); msg != "" {
 			vkit.ReportFailure(t.Name(), c, msg, "")
 			t.Fatalf("%s (case %+v)", msg, c)
@@ -423,6 +434,9 @@ func TestConcurrentDelivery(t *testing.T) {
 		labels := []string{"transport-" + c.Transport, fmt.Sprintf("rate-%d", c.Rate)}
 		if c.SlowSub {
 			labels = append(labels, "slow-subscriber")
+		}
+		if c.ReadRate > 0 {
+			labels = append(labels, "read-rate-limited")
 		}
 		vkit.Record(t.Name(), c, vkit.Result{NonTrivial: c.Pubs >= 2, Labels: labels})
 	}
